@@ -28,7 +28,7 @@ LayOpts == { MkOpt(FALSE, d, i, v, 2048, l) : d \in {FALSE}, i \in BOOLEAN, v \i
 LayRoots   == { <<>>, <<"b1">>, <<"b3", "b4">>, <<"b1", "b1">>, <<"b13">>, <<"b10">> }
 LayPutIds  == {"b1", "b5", "b10", "b12", "b13", "b14", "b15", "b16"}
 LayMany    == { <<"b13", "b14">>, <<"b14", "b1">> }     \* b14 first: a 128-byte section body followed by another block of the batch
-LayProbes  == {"b1", "b5", "b13", "b14"}
+LayProbes  == {"b1", "b5", "b12", "b13", "b14"}     \* b12: a stored block without data bytes (size 0)
 
 (* C12: interleavings of puts and interruptions; every reopen variant *)
 ResOpts == { MkOpt(FALSE, d, i, v, 2048, l) : d \in BOOLEAN, i \in BOOLEAN, v \in BOOLEAN, l \in 0..2 }
